@@ -102,7 +102,67 @@ class HSymMixin(Hooks, SymlinkNodeMixin):
         return "HSymMixin(%r)" % (self.target,)
 
 
-FAMILIES = ("NM", "LM", "Node", "AnyNode", "MIX")
+class ValNM(Hooks, NodeMixin):
+    """Value semantics: equal / hash-equal when the keys agree (several nodes share a key)."""
+
+    def __init__(self, name, key=0):
+        self.name = name
+        self.key = key
+
+    def __eq__(self, other):
+        return getattr(other, "key", None) == self.key
+
+    def __ne__(self, other):
+        return getattr(other, "key", None) != self.key
+
+    def __hash__(self):
+        return hash(self.key)
+
+    def __repr__(self):
+        return "ValNM(%s)" % (self.name,)
+
+
+class ValLM(Hooks, LightNodeMixin):
+    __slots__ = ("name", "key")
+
+    def __init__(self, name, key=0):
+        self.name = name
+        self.key = key
+
+    def __eq__(self, other):
+        return getattr(other, "key", None) == self.key
+
+    def __ne__(self, other):
+        return getattr(other, "key", None) != self.key
+
+    def __hash__(self):
+        return hash(self.key)
+
+    def __repr__(self):
+        return "ValLM(%s)" % (self.name,)
+
+
+class FalsyNM(Hooks, NodeMixin):
+    """Container-like node: its length is its number of children, so every leaf is falsy."""
+
+    def __init__(self, name, key=0):
+        self.name = name
+        self.key = key
+
+    def __len__(self):
+        return len(self.children)
+
+    def __repr__(self):
+        return "FalsyNM(%s)" % (self.name,)
+
+
+FAMILIES = ("NM", "LM", "Node", "AnyNode", "MIX", "VALNM", "VALLM", "FALSY")
+
+
+def base_family(family):
+    """'LM' for LightNodeMixin-based families (no claims for non-node arguments), else 'NM'."""
+    return "LM" if family in ("LM", "VALLM") else "NM"
+
 CUSTOM_FAMILIES = {}  # name -> factory(k) -> list of fresh detached nodes
 
 
@@ -112,6 +172,12 @@ def make_nodes(family, k):
     universe members)."""
     if family in CUSTOM_FAMILIES:
         return CUSTOM_FAMILIES[family](k)
+    if family == "VALNM":
+        return [ValNM("n%d" % i, i % 2) for i in range(k)]
+    if family == "VALLM":
+        return [ValLM("n%d" % i, i % 2) for i in range(k)]
+    if family == "FALSY":
+        return [FalsyNM("n%d" % i, i % 2) for i in range(k)]
     if family == "NM":
         return [NM("n%d" % i) for i in range(k)]
     if family == "LM":
@@ -373,7 +439,7 @@ def mon_c02(ctx, ex):
     """Outcome class and post-state equal the reference model (fault-free)."""
     if ex.faults or ex.planspec[0] != "none":
         return True
-    fam = "LM" if ex.family == "LM" else "NM"
+    fam = base_family(ex.family)
     exp_out, exp_ch, _ = M.model_call(M.ch_of(ex.pre), ex.call, fam)
     if exp_out == "unspecified":
         return True
@@ -472,7 +538,7 @@ def mon_c03(ctx, ex, known_mechanisms):
     # not restored: exact-mechanism recognition of known findings
     mech = classify_c03(ex)
     if mech is not None and mech in known_mechanisms:
-        fam = "LM" if ex.family == "LM" else "NM"
+        fam = base_family(ex.family)
         sim = M.Sim(M.ch_of(ex.pre), Plan(ex.planspec), fam)
         s_out, s_ch = sim.run(ex.call)
         if s_out == ex.outcome and M.snap_of(s_ch) == ex.post and M.invariant(ex.post) == []:
@@ -516,7 +582,7 @@ def mon_c16(ctx, ex):
     ctx.count("mon.C16.automaton")
     faulted = {i for i, _, _ in ex.faults}
     m = len(ev)
-    fam = "LM" if ex.family == "LM" else "NM"
+    fam = base_family(ex.family)
 
     def bad(rule, i, detail):
         ctx.violation(
@@ -670,7 +736,7 @@ def all_calls(k, family, maxlen=None, rep=True, nonnodes=True, itkinds=("list",)
     for n in U:
         for p in [None] + U:
             yield ("setparent", n, p)
-        if nonnodes and family != "LM":
+        if nonnodes and base_family(family) != "LM":
             for kind in ("object", "str"):
                 yield ("setparent", n, ("nonnode", kind))
     for n in U:
@@ -682,7 +748,7 @@ def all_calls(k, family, maxlen=None, rep=True, nonnodes=True, itkinds=("list",)
             for it in itkinds:
                 yield ("setchildren", n, tuple(xs), it)
         yield ("setchildren", n, (), "noniter")
-        if nonnodes and family != "LM":
+        if nonnodes and base_family(family) != "LM":
             others = [u for u in U if u != n]
             yield ("setchildren", n, (("nonnode", "object"),), "list")
             if others:
